@@ -285,6 +285,11 @@ def run(ctx):
                     {"kind": "obligation", "site": u, "theorem": "Poly.Props.C17.fields_written_raw",
                      "hint": "stream ccm (checks C20/C17 key log) drives the done-tx records with ids x, sha256(x), x[:32], x||00"},
                     found_input=False)
+    for u in ks.get("package_slice_appends") or []:
+        ctx.violate("C17:append-to-package-slice:%s" % u.split(":")[0],
+                    "a value is built by appending to a package-level slice with spare capacity: %s — all results share one backing "
+                    "array (concurrent native executions read each other's keys; stream ccm op `conc` probes the getters)" % u,
+                    {"kind": "obligation", "site": u, "theorem": "Poly.Props.C17.no_shared_backing_arrays"}, found_input=False)
     for d in ks.get("direct_store_imports") or []:
         ctx.violate("C17:direct-store-import:%s" % d.split(" ")[0].rsplit(":", 1)[0],
                     "a package under native/ reaches a ledger store package directly: %s" % d,
